@@ -8,6 +8,7 @@ CONSTANTS
   MaxOps = 30
   MaxMut = 0
   MaxConds = 0
+  UseOpts = FALSE
   MaxObs = 0
   MaxRagged = 3
   MaxRaggedInt = 3
